@@ -423,8 +423,8 @@ func (s *Service) ServeBytes(req *http.Request, contentType string, body []byte)
 // FaultKinds lists the single-fault kinds understood by applyFault.  The first
 // group are "failure signals" in the sense of C09.
 var FaultKinds = []string{
-	"transport-error", "transport-eof", "transport-unexpected-eof", "transport-reset", "status-500", "status-502-valid-body", "status-404-valid-body", "non-json", "not-array", "short-array", "long-array",
-	"errors", "errors+data", "missing-data", "missing-node", "node-wrong-type",
+	"transport-error", "transport-eof", "transport-unexpected-eof", "transport-reset", "status-500", "status-502-valid-body", "status-404-valid-body", "non-json", "valid-body-then-garbage", "not-array", "short-array", "long-array",
+	"errors", "errors-null-entries", "errors+data", "missing-data", "missing-node", "node-wrong-type",
 	// shape contradictions (not failure signals):
 	"data-null", "node-null", "shape-scalar-for-object", "shape-object-for-list", "shape-list-nonmap", "shape-id-missing", "shape-id-nonstring", "shape-null-nonnull", "shape-list-for-object", "shape-emptylist-for-object",
 }
@@ -432,8 +432,8 @@ var FaultKinds = []string{
 // IsFailureSignal reports whether kind is in the C09 list "up to and including a mistyped node".
 func IsFailureSignal(kind string) bool {
 	switch kind {
-	case "transport-error", "transport-eof", "transport-unexpected-eof", "transport-reset", "status-500", "status-502-valid-body", "status-404-valid-body", "non-json", "not-array", "short-array", "long-array",
-		"errors", "errors+data", "missing-data", "missing-node", "node-wrong-type":
+	case "transport-error", "transport-eof", "transport-unexpected-eof", "transport-reset", "status-500", "status-502-valid-body", "status-404-valid-body", "non-json", "valid-body-then-garbage", "not-array", "short-array", "long-array",
+		"errors", "errors-null-entries", "errors+data", "missing-data", "missing-node", "node-wrong-type":
 		return true
 	}
 	return false
@@ -470,6 +470,15 @@ func applyFault(req *http.Request, f *Fault, resps []map[string]any, isArray boo
 		return jsonResp(req, code, out), nil
 	case "non-json":
 		return jsonResp(req, 200, []byte(`<html>not json</html>`)), nil
+	case "valid-body-then-garbage":
+		// the well-formed answer followed by something else (a stack trace, an HTML page, a second document): not JSON
+		var out []byte
+		if isArray {
+			out, _ = json.Marshal(resps)
+		} else if len(resps) > 0 {
+			out, _ = json.Marshal(resps[0])
+		}
+		return jsonResp(req, 200, append(out, []byte("\n<html><body>500 Internal Server Error</body></html>")...)), nil
 	case "not-array":
 		return jsonResp(req, 200, []byte(`{"data":{"x":"`+Sentinel+`"}}`)), nil
 	case "short-array":
@@ -516,6 +525,10 @@ func corruptElem(f *Fault, r map[string]any) map[string]any {
 	switch f.Kind {
 	case "errors":
 		out["errors"] = errList()
+		out["data"] = nil
+	case "errors-null-entries":
+		// a non-empty errors list whose entries are null
+		out["errors"] = []any{nil}
 		out["data"] = nil
 	case "errors+data":
 		out["errors"] = errList()
